@@ -111,7 +111,8 @@ def ref_conditions(p, req):
     has = p.match_all
     if p.chaddr:
         has = True
-        conds.append(z3.And([a == b for a, b in zip(req["chaddr"], p.chaddr)]))
+        # the whole hardware address must be the written one (a longer address that merely starts with it is another client)
+        conds.append(z3.And([a == b for a, b in zip(req["chaddr"], p.chaddr)]) if len(req["chaddr"]) == len(p.chaddr) else z3.BoolVal(False))
     if p.subnet:
         has = True
         conds.append(req["serverip"] & mask(p.subnet[1]) == p.subnet[0])
@@ -166,7 +167,7 @@ def ref_apply_one(p, req, table):
 
 
 # ---------------------------------------------------------------------------------------------------------------- obligation
-def obligation(prog, enums, structs, make_tree, paramlist, req_options):
+def obligation(prog, enums, structs, make_tree, paramlist, req_options, hlen=6):
     """make_tree() -> list of P (top-level siblings); paramlist: concrete list of option codes the client asks for;
     req_options: {code: True} options present in the request (4 symbolic octets each)"""
     fn = find(prog, "apply_policies", 3)
@@ -177,7 +178,7 @@ def obligation(prog, enums, structs, make_tree, paramlist, req_options):
         tree = make_tree()
         pools = {}
         pols = Seq([mk_policy(structs, p, pools) for p in tree])
-        req = dict(chaddr=[z3.BitVec(f"chaddr{i}", 8) for i in range(6)], serverip=z3.BitVec("serverip", 32), paramlist=list(paramlist),
+        req = dict(chaddr=[z3.BitVec(f"chaddr{i}", 8) for i in range(hlen)], serverip=z3.BitVec("serverip", 32), paramlist=list(paramlist),
                    options={c: [z3.BitVec(f"req{c}_{i}", 8) for i in range(4)] for c in req_options})
         e.env.update(tree=tree, req=req, pools=pools)
         other = KMap()
@@ -258,6 +259,7 @@ def shapes(tier):
     out.append(("match_option_value_and_null", lambda: [P(match_opt={60: "value"}, apply={A: "value"}), P(match_opt={60: "null", 77: "value"}, apply={A: "value"}), P(match_opt={77: "null"}, apply={A: "null"})],
                 [A], {60: True}))
     out.append(("match_option_absent_in_request", lambda: [P(match_opt={60: "value"}, apply={A: "value"}), P(match_opt={60: "null"}, apply={B: "value"})], [A, B], {}))
+    out.append(("hardware_address_of_7_octets_is_not_the_6_octet_one", lambda: [P(chaddr=True, apply={A: "value"}, address=True), P(match_all=True, apply={B: "value"})], [A, B], {}, 7))
     out.append(("conditionless_nested_twice", lambda: [P(apply={A: "value"}, children=[P(apply={B: "value"}, children=[P(chaddr=True, apply={A: "value"})]), P(subnet=12)]),
                                                        P(chaddr=True, apply={A: "null"})], [A, B], {}))
     if tier == "thorough":
